@@ -16,7 +16,7 @@ EXPLANATION = (
     "that omitted minimum/maximum/scale/offset/precision take the standard's defaults identically at all sites; that a "
     "data packet reads bytestream_count (= prototype length) u16 sizes and then exactly those many bytes appended to the "
     "stream of the same index; that the bit extraction window covers 64 bits at any bit phase and append keeps the "
-    "carry-over; and that the page cursor is only moved by the verified seek/read/align formulas. Not decided: "
+    "carry-over; and that the page cursor is only moved by the verified seek/read/align formulas. Also the bit-width formula and stored form shared with C12. Not decided: "
     "correctness on concrete files, arbitrary XML lexical forms (roxmltree is trusted).")
 
 
